@@ -182,6 +182,9 @@ class RunLab(object):
             if oc == "fail":
                 if zlib.crc32(text.encode("utf-8")) % 4 == 0:
                     raise CustomAssertion(state.messages.get(text, "assertion subclass raised in %s" % text))
+                if text not in state.messages and zlib.crc32(text.encode("utf-8")) % 7 in (3, 5):
+                    # an assertion whose payload is not text: `assert got == want, (got, want)` / `assert code == 200, code`
+                    assert False, ((3, 4) if zlib.crc32(text.encode("utf-8")) % 7 == 3 else 404)
                 assert False, state.messages.get(text, "assertion failed in %s" % text)
             if oc == "error":
                 # "raises any other exception": the class varies with the step text (deterministic, replayable)
